@@ -80,10 +80,25 @@ def _merge_attrpath_bindings(
     """Merge attrpath-derived bindings and reject mixed explicit definitions."""
     merged: list[Binding | Inherit] = []
     first_binding_by_name: dict[str, Binding] = {}
+    family_by_name: dict[str, Binding] = {}
     for item in values:
         if not isinstance(item, Binding):
             merged.append(item)
             continue
+        if item.nested:
+            # Attrpath bindings of one root form one family, also when an
+            # explicit `root = { … };` binding stands in front of them.
+            family = family_by_name.get(item.name)
+            if family is not None and family is not first_binding_by_name.get(
+                item.name
+            ):
+                if not isinstance(family.value, AttributeSet) or not isinstance(
+                    item.value, AttributeSet
+                ):
+                    raise ValueError(f"Invalid attrpath binding for: {item.name}")
+                _merge_attrpath_sets(family.value, item.value)
+                continue
+            family_by_name.setdefault(item.name, item)
         existing = first_binding_by_name.get(item.name)
         if existing is None:
             merged.append(item)
